@@ -85,6 +85,15 @@ def nearestPublic (pubs : List PubRec) (addr : Nat) : Option PubRec :=
 def prevFunc (tbl : List RangeMap.Entry) (addr : Nat) : Option Nat :=
   tbl.foldl (fun best e => if e.1.lo < addr then some e.2 else best) none
 
+/-- the PUBLIC is cut short by a FUNC that starts after it and before `addr`
+    (`public.address <= prev_func.address` ⇒ do not use it) -/
+def pubTruncated (sf : SymFile) (ftbl : List RangeMap.Entry) (addr : Nat) (p : PubRec) : Bool :=
+  match prevFunc ftbl addr with
+  | none => false
+  | some i => match sf.funcs[i]? with
+    | some f => decide (p.addr ≤ f.addr)
+    | none => false
+
 /-- `SymbolFile::fill_symbol` as far as the function is concerned. -/
 def fillSymbol (sf : SymFile) (ftbl : List RangeMap.Entry) (modBase instr : Nat) : Option FuncInfo :=
   if instr < modBase then none
@@ -99,13 +108,7 @@ def fillSymbol (sf : SymFile) (ftbl : List RangeMap.Entry) (modBase instr : Nat)
       match nearestPublic sf.pubs addr with
       | none => none
       | some p =>
-        let truncated : Bool :=
-          match prevFunc ftbl addr with
-          | none => false
-          | some i => match sf.funcs[i]? with
-            | some f => decide (p.addr ≤ f.addr)
-            | none => false
-        if truncated then none
+        if pubTruncated sf ftbl addr p then none
         else some { name := p.name, base := p.addr + modBase, psize := p.psize }
 
 /-- modules, and per module (by position) its symbol file if the supplier has one -/
